@@ -6,12 +6,12 @@
     theorems quantify over all of them. *)
 From Coq Require Import ZArith List.
 From OCI Require Import Machine Checkers.
-From OCI.proofs Require Import ArithOk Trace InvKnown ChkKnown IterBase ChkIter ChkAll Progress IterFair.
+From OCI.proofs Require Import ArithOk Trace InvKnown ChkKnown IterBase ChkIter ChkAll Progress IterFair IterLedger Owning.
 Import ListNotations.
 Open Scope N_scope.
 
 (** no element is delivered twice, whatever panics *)
-Theorem c18_no_duplicate : forall e, src_env e -> forall progs, wf_progs progs -> forall sched,
+Theorem c18_no_duplicate : forall e, src_env e -> fused e -> forall progs, wf_progs progs -> forall sched,
   nowrap (c_labels (exec e (init progs) sched)) ->
   chk_C01_nodup e (c_trace (exec e (init progs) sched)) = true.
 Proof. exact all_nodup. Qed.
@@ -56,3 +56,10 @@ Theorem c18_ledger_wrapped_iterator : forall e, iter_env e -> forall progs, wf_p
   chk_C08 e (c_trace (exec e (init progs) sched)) = true.
 Proof. exact iter_C08_run. Qed.
 Print Assumptions c18_ledger_wrapped_iterator.
+
+(** every wrapped iterator, fused or not, whatever panics: no position is moved out to two callers *)
+Theorem c18_no_duplicate_any_iterator : forall e, iter_env e -> forall progs, wf_progs progs -> forall sched,
+  nowrap (c_labels (exec e (init progs) sched)) ->
+  pairwise_disj (taken_all e (c_trace (exec e (init progs) sched))) = true.
+Proof. exact iter_taken_nodup. Qed.
+Print Assumptions c18_no_duplicate_any_iterator.
